@@ -220,11 +220,11 @@ func OuterLoops(loops []*Loop, b *ssa.BasicBlock) []*Loop {
 // the feasible paths (sound for "no path exists" claims).
 
 type envVal struct {
-	known bool
-	c     constant.Value // nil means the nil pointer/interface when isNil
-	isNil bool
+	known  bool
+	c      constant.Value // nil means the nil pointer/interface when isNil
+	isNil  bool
 	nonNil bool
-	sym   string // symbolic identity: a load of a never-stored field path of a parameter (two such loads are equal)
+	sym    string // symbolic identity: a load of a never-stored field path of a parameter (two such loads are equal)
 }
 
 // symOf: "pN.F.G" when v loads a field path rooted at a parameter and no
